@@ -252,6 +252,19 @@ def run(ctx):
     # fire: the debug-only blocks have no effects of their own, and every panic site the debug build has in addition is discharged
     # by the facts at the site (on the INLINEd instances, i.e. in the callers' context)
     explained = []
+    # scope: the property speaks of loading, walking and decoding stored data.  A function that does not exist in the minimal
+    # build (builder / alloc only) is not reachable from that API (CD:same-parse-path above), so a debug assertion in it cannot
+    # change what parsing does; it is counted, not judged here (the builder properties judge the builder in their own terms).
+    b_paths = set()
+    for k_, f_ in FB.fns.items():
+        b_paths.add(k_)
+        b_paths.add(f_.get("path") or k_)
+    out_of_scope = [k_ for k_ in diff_d if k_ not in b_paths and (FD.fns[k_].get("path") or k_) not in b_paths]
+    if out_of_scope:
+        ctx.note("bodies that differ with debug assertions enabled but exist only with the builder/alloc features (outside the parse path, not judged): %s"
+                 % ", ".join(sorted(x.split("::")[-1] for x in out_of_scope))[:300])
+        diff_d = [k_ for k_ in diff_d if k_ not in out_of_scope]
+    oos_paths = set(out_of_scope) | {FD.fns[k_].get("path") or k_ for k_ in out_of_scope}
     if diff_d and not only_d and not only_a2:
         from .. import purity as PU
 
@@ -270,6 +283,8 @@ def run(ctx):
         for ik, inst_d in FD.insts.items():
             inst_a = FA.insts.get(ik)
             if inst_a is None or CD.body_hash(inst_a) == CD.body_hash(inst_d):
+                continue
+            if inst_d.get("path") in oos_paths and ik not in FB.insts:
                 continue
             covered.add(inst_d.get("path"))
             covered.update(inst_d.get("inlined") or [])
